@@ -1,51 +1,99 @@
 (* Property C16: equation strings round-trip and parse to the function they denote.
-   Token level (this file, part 1): for every printed tree the shunting-yard yields the postfix form of the tree with sums
-   re-associated to the left, the builder turns that postfix form into a command array whose LAST row denotes exactly that tree
-   with the literals numbered in textual order, and the tree means what the printed tree means in every algebra where
-   a + (b + c) = (a + b) + c and a + (b - c) = (a + b) - c. *)
-From Coq Require Import ZArith List Bool.
-From Bingo Require Import Lib.Alg Gen.OpDefs Gen.OpEval Gen.Strings Model.Stack Model.Parse Model.ParseTree
-     Proofs.ReduceProofs Proofs.ParseProofs Proofs.BuildProofs.
+   Characters -> tokens -> postfix -> command array, for EVERY stack whose rows are scoped and whose denoted expressions are
+   printable (the 6 binary and 8 unary operators of the print templates, existing constants with a finite str(float), variables
+   X_k with k >= 0, any integers): the parser applied to the printer's output returns a command array whose LAST row denotes the
+   printed tree with its sums re-associated to the left, constants being the printed literals in textual order, and that tree
+   means what the original stack means in every algebra where a+(b+c)=(a+b)+c and a+(b-c)=(a+b)-c. *)
+From Coq Require Import ZArith List Bool Lia.
+From Bingo Require Import Lib.Alg Gen.OpDefs Gen.OpEval Gen.Strings Model.Stack Model.Parse Model.ParseTree Model.TermAlg Model.AGraphObj
+     Proofs.ReduceProofs Proofs.ParseProofs Proofs.BuildProofs Proofs.LexProofs Proofs.PrintProofs.
 Import ListNotations.
 
+(* 1. the row-by-row printer prints the tree the stack denotes *)
+Theorem C16_printer_prints_the_denoted_tree :
+  forall (C : Type) (lit : C -> str) (consts : list C) (s : stack),
+  s <> [] -> scoped s -> forallb (printable C lit consts) (denote_all s) = true ->
+  sympy_string C lit consts s = render false (to_p C lit consts (denote s)).
+Proof. exact sympy_string_tree. Qed.
+Print Assumptions C16_printer_prints_the_denoted_tree.
+
+(* 2. characters: the tokenizer (bad-substring test, both replaces, both unary-minus substitutions, padding, split, lower) maps
+      the printed string to the printed tokens *)
+Theorem C16_tokenizer_recovers_the_printed_tokens :
+  forall (isf : str -> bool) e, text_ok e = true -> (forall t, In t (p_lits e) -> isf t = true) ->
+  option_map (map (classify isf)) (tokenize (render false e)) = Some (toks e).
+Proof. exact tokens_of_printed_string. Qed.
+Print Assumptions C16_tokenizer_recovers_the_printed_tokens.
+
+(* 3. tokens: the shunting-yard returns the postfix form of the tree, sums re-associated to the left *)
 Theorem C16_shunting_yard_recovers_the_printed_tree :
   forall e, prec_ok e = true -> infix_to_postfix (toks e) = Some (post (recov e None)).
 Proof. exact infix_to_postfix_printed. Qed.
 Print Assumptions C16_shunting_yard_recovers_the_printed_tree.
 
+(* 4. postfix: the builder (with its command dictionary) returns an array whose last row denotes the tree; literals in order *)
 Theorem C16_builder_denotes_the_postfix_tree :
   forall q, q_ok q = true ->
   exists rows, build (post q) = Some (rows, q_lits q) /\ rows <> [] /\ scoped rows /\ denote rows = fst (q_expr q 0).
 Proof. exact build_printed. Qed.
 Print Assumptions C16_builder_denotes_the_postfix_tree.
 
-Theorem C16_tokens_of_a_printed_equation_parse_to_its_tree :
-  forall e, p_ok e = true ->
-  exists rows, infix_to_postfix (toks e) = Some (post (recov e None)) /\
-               build (post (recov e None)) = Some (rows, q_lits (recov e None)) /\
+(* 5. the whole round trip, without simplification *)
+Theorem C16_print_then_parse_round_trip :
+  forall (C : Type) (lit : C -> str) (consts : list C) (isf : str -> bool) (s : stack),
+  s <> [] -> scoped s -> forallb (printable C lit consts) (denote_all s) = true ->
+  let e := to_p C lit consts (denote s) in
+  (forall t, In t (p_lits e) -> isf t = true) ->
+  exists rows, parse isf (sympy_string C lit consts s) = Some (rows, q_lits (recov e None)) /\
                rows <> [] /\ scoped rows /\ denote rows = fst (q_expr (recov e None) 0).
-Proof. exact parse_printed_tokens. Qed.
-Print Assumptions C16_tokens_of_a_printed_equation_parse_to_its_tree.
+Proof. exact print_parse_roundtrip. Qed.
+Print Assumptions C16_print_then_parse_round_trip.
 
-Theorem C16_the_recovered_tree_means_the_printed_tree :
-  forall (V : Type) (A : alg V) (xv : Z -> V) (val : str -> V),
+(* 6. ... and the parsed equation means what the printed one means *)
+Theorem C16_round_trip_preserves_the_function :
+  forall (C : Type) (lit : C -> str) (consts : list C) (V : Type) (A : alg V) (xv cv : Z -> V) (val : str -> V),
   (forall a b c, a_add A a (a_add A b c) = a_add A (a_add A a b) c) ->
   (forall a b c, a_add A a (a_sub A b c) = a_sub A (a_add A a b) c) ->
-  forall e cv, (forall k, (k < length (q_lits (recov e None)))%nat -> cv (Z.of_nat k) = val (nth k (q_lits (recov e None)) [])) ->
-  sem A xv cv (fst (q_expr (recov e None) 0)) = psem A xv val e.
+  (forall k, (0 <= k < Z.of_nat (length consts))%Z -> val (const_text C lit consts k) = cv k) ->
+  (forall z, (z < 0)%Z -> val (dec z) = a_of_int A z) ->
+  forall e0, printable C lit consts e0 = true ->
+  let q := recov (to_p C lit consts e0) None in
+  forall cv', (forall k, (k < length (q_lits q))%nat -> cv' (Z.of_nat k) = val (nth k (q_lits q) [])) ->
+  sem A xv cv' (fst (q_expr q 0)) = sem A xv cv e0.
 Proof.
-  intros V A xv val H1 H2 e cv Hc.
-  rewrite (q_expr_sem A xv val (recov e None) 0 cv) by (intros k Hk; rewrite Z.add_0_l; apply Hc; exact Hk).
-  exact (recov_sem A xv val H1 H2 e None).
+  intros C lit consts V A xv cv val H1 H2 Hc Hn e0 P q cv' Hv.
+  rewrite (q_expr_sem A xv val q 0 cv') by (intros k Hk; rewrite Z.add_0_l; apply Hv; exact Hk).
+  unfold q. rewrite (recov_sem A xv val H1 H2 _ None). apply (to_p_sem C lit consts A xv cv val Hc Hn). exact P.
 Qed.
-Print Assumptions C16_the_recovered_tree_means_the_printed_tree.
+Print Assumptions C16_round_trip_preserves_the_function.
 
-(* non-vacuity: "2.5 + X_0 - (abs(X_1)**(3) + (X_0)*(2.5))" as tokens *)
-Definition ex_e : pexpr :=
-  PSub (PAdd (PLitc [50; 46; 53]) (PVar 0)) (PAdd (PSafe (PVar 1) (PInt 3)) (PBin MULTIPLICATION 1 false (PVar 0) (PLitc [50; 46; 53]))).
+(* 7. with simplification the statement is FALSE of the code's binding rule (known finding F3): a simplifier that meets its
+      contract - the simplified stack expresses the same function for SOME constants - makes the positional re-binding in
+      AGraph._update evaluate a different function. Witness: "(2.0)*((3.0)*(X_0))", the stack the parser returns for it, the
+      stack the real simplifier returns for that, the literals as integers 2 and 3, at X_0 = 1. *)
+Definition f3_parsed : stack := [(1, 0, 0); (1, 1, 1); (0, 0, 0); (4, 1, 2); (4, 0, 3)]%Z.
+Definition f3_simplified : stack := [(1, (-1), (-1)); (0, 0, 0); (4, 0, 1)]%Z.
+Definition f3_S (flag : bool) (s : stack) : stack := if flag then f3_simplified else s.
+Theorem C16_round_trip_with_simplification_refuted :
+  let value (obs : stack * list Z * bool) := root z_alg (fst (fst obs)) (fun _ => 1%Z) (fun k => nth (Z.to_nat k) (snd (fst obs)) 0%Z) in
+  (* the simplified stack does express the parsed function: with the constant 6 *)
+  root z_alg (renumber f3_simplified 0) (fun _ => 1%Z) (fun _ => 6%Z) = root z_alg f3_parsed (fun _ => 1%Z) (fun k => nth (Z.to_nat k) [2; 3]%Z 0%Z) /\
+  value (fresh_observation Z 1%Z f3_S false f3_parsed [2; 3]%Z false) = 6%Z /\
+  value (fresh_observation Z 1%Z f3_S true f3_parsed [2; 3]%Z false) = 2%Z.
+Proof. vm_compute. repeat split. Qed.
+Print Assumptions C16_round_trip_with_simplification_refuted.
+
+(* non-vacuity: a stack with sharing, a negative integer, a safe power and two constants; its printed string; the parse *)
+Definition ex_stack : stack := [(1, 0, 0); (0, 0, 0); (2, 0, 1); (-1, -2, -2); (13, 2, 3); (1, 1, 1); (3, 4, 5); (6, 6, 6)]%Z.
+Definition ex_consts : list str := [[50; 46; 53]; [45; 49; 101; 45; 48; 53]]%Z.     (* "2.5", "-1e-05" *)
 Example C16_example :
-  p_ok ex_e = true /\
-  (exists post_toks, infix_to_postfix (toks ex_e) = Some post_toks /\
-     build post_toks = Some ([(1, 0, 0); (0, 0, 0); (2, 0, 1); (0, 1, 1); (11, 3, 3); (-1, 3, 3); (10, 4, 5); (1, 1, 1); (4, 1, 7); (2, 6, 8); (3, 2, 9)]%Z,
-                             [[50; 46; 53]; [50; 46; 53]]%Z)).
-Proof. split; [reflexivity|]. eexists. split; vm_compute; reflexivity. Qed.
+  scoped ex_stack /\ forallb (printable str (fun t => t) ex_consts) (denote_all ex_stack) = true /\
+  sympy_string str (fun t => t) ex_consts ex_stack =
+    [115; 105; 110; 40; 97; 98; 115; 40; 50; 46; 53; 32; 43; 32; 88; 95; 48; 41; 42; 42; 40; 45; 50; 41; 32; 45; 32; 40; 45; 49; 101; 45; 48; 53; 41; 41]%Z /\
+  parse (fun t => existsb (str_eqb t) ([45; 50] :: ex_consts)%Z) (sympy_string str (fun t => t) ex_consts ex_stack) =
+    Some ([(1, 0, 0); (0, 0, 0); (2, 0, 1); (11, 2, 2); (1, 1, 1); (10, 3, 4); (1, 2, 2); (3, 5, 6); (6, 7, 7)]%Z,
+          [[50; 46; 53]; [45; 50]; [45; 49; 101; 45; 48; 53]]%Z).
+Proof.
+  split; [|vm_compute; repeat split].
+  intros j Hj. cbn in Hj. do 8 (destruct j as [|j]; [cbn; first [left; reflexivity|right; lia]|]). lia.
+Qed.
